@@ -1,4 +1,4 @@
-use yasna::{Tag, DERWriter, BERReader};
+use yasna::{Tag, DERWriter, BERReader, ASN1Error, ASN1ErrorKind};
 use model::error::{RdpResult, Error};
 use indexmap::map::IndexMap;
 
@@ -728,8 +728,80 @@ pub fn to_der(message: &dyn ASN1) -> Vec<u8> {
     })
 }
 
+/// Check that no element of a BER / DER stream declares more
+/// content than what is left of the stream
+///
+/// The parser adds a declared length to its read position
+/// without checking it first : a length close to the
+/// maximal integer would overflow and panic
+///
+/// # Example
+/// ```
+/// use rdp::nla::asn1::check_lengths;
+/// assert!(check_lengths(&[0x30, 0x03, 0x02, 0x01, 0x02]).is_ok());
+/// assert!(check_lengths(&[0x30, 0x88, 0xff, 0xff, 0xff, 0xff, 0xff, 0xff, 0xff, 0xff]).is_err());
+/// ```
+pub fn check_lengths(stream: &[u8]) -> RdpResult<()> {
+    check_lengths_at(stream, 0)
+}
+
+fn check_lengths_at(stream: &[u8], depth: usize) -> RdpResult<()> {
+    let eof = || Error::ASN1Error(ASN1Error::new(ASN1ErrorKind::Eof));
+    if depth > 100 {
+        return Err(Error::ASN1Error(ASN1Error::new(ASN1ErrorKind::StackOverflow)))
+    }
+    let mut pos = 0;
+    while pos < stream.len() {
+        // identifier octets
+        let identifier = stream[pos];
+        pos += 1;
+        if identifier & 0x1f == 0x1f {
+            loop {
+                let octet = *stream.get(pos).ok_or_else(eof)?;
+                pos += 1;
+                if octet & 0x80 == 0 {
+                    break;
+                }
+            }
+        }
+        // length octets
+        let first = *stream.get(pos).ok_or_else(eof)?;
+        pos += 1;
+        if first == 0x80 {
+            // indefinite form : the content (and its end of content octets)
+            // is made of elements that are checked like the following ones
+            continue;
+        }
+        let length = if first < 0x80 {
+            first as u64
+        } else {
+            let size = (first & 0x7f) as usize;
+            if size > 8 || stream.len() - pos < size {
+                return Err(eof())
+            }
+            let mut value: u64 = 0;
+            for octet in &stream[pos..pos + size] {
+                value = value << 8 | *octet as u64;
+            }
+            pos += size;
+            value
+        };
+        if length > (stream.len() - pos) as u64 {
+            return Err(eof())
+        }
+        let length = length as usize;
+        // constructed element
+        if identifier & 0x20 != 0 {
+            check_lengths_at(&stream[pos..pos + length], depth + 1)?;
+        }
+        pos += length;
+    }
+    Ok(())
+}
+
 /// Deserialize an ASN1 message from a stream
 pub fn from_der(message: &mut dyn ASN1, stream: &[u8]) ->RdpResult<()> {
+    check_lengths(stream)?;
     Ok(yasna::parse_der(stream, |reader| {
         if let Err(Error::ASN1Error(e)) = message.read_asn1(reader) {
             return Err(e)
@@ -740,6 +812,7 @@ pub fn from_der(message: &mut dyn ASN1, stream: &[u8]) ->RdpResult<()> {
 
 /// Deserialize an ASN1 message from a stream using BER
 pub fn from_ber(message: &mut dyn ASN1, stream: &[u8]) ->RdpResult<()> {
+    check_lengths(stream)?;
     Ok(yasna::parse_ber(stream, |reader| {
         if let Err(Error::ASN1Error(e)) = message.read_asn1(reader) {
             return Err(e)
